@@ -58,7 +58,8 @@ class Contract:
         self.inline = kw.get("inline", False)
         self.ghost = kw.get("ghost", {})
         self.lets = kw.get("let", {})           # name -> expr, evaluated at entry (after requires)
-        self.bind = kw.get("bind", {})          # function parameter -> name of a let / param (derived argument)
+        self.bind = kw.get("bind", {})
+        self.bind_varargs = kw.get("bind_varargs", [])          # function parameter -> name of a let / param (derived argument)
         self.post_lets = kw.get("post_let", {})  # name -> expr, evaluated at exit
         self.kind = kw.get("kind", "function")  # function | lemma
         self.covers = kw.get("covers", {})
@@ -452,6 +453,7 @@ class ContractSet:
         I.path = path
         I.str_consts = {}
         I.verifying = c.target
+        I.final_frames = {}
         I.in_callee = 0
         self.old_vals = None
         loc = self.setup_inputs(I, c)
@@ -480,6 +482,8 @@ class ContractSet:
                 args.append(loc[p])
             else:
                 break
+        for p in c.bind_varargs:
+            args.append(loc[p])
         for p in names[len(args):]:
             if p in loc and p not in c.bind:
                 kwargs[p] = loc[p]
@@ -591,6 +595,13 @@ class ContractSet:
     # ------------------------------------------------------------------------------------------
     def apply(self, I: Interp, c: Contract, fv, loc):
         P = I.path
+        if c.bind_varargs and fv.node.args.vararg is not None:
+            va = loc.get(fv.node.args.vararg.arg)
+            if not isinstance(va, VTuple) or len(va.items) < len(c.bind_varargs):
+                raise Unsupported(f"{c.target}: positional arguments do not match the contract's bind_varargs")
+            loc = dict(loc)
+            for k, p in enumerate(c.bind_varargs):
+                loc[p] = va.items[k]
         sfr = self.clause_frame(c, loc)
         caller = I.verifying
         for k, src in enumerate(c.requires):
@@ -932,6 +943,10 @@ class ContractSet:
                 if isinstance(nn, VUnion):
                     raise Unsupported("range bound")
                 return {"n": nn, "elem": lambda i: ops._arith(I, "+", lo, i)}
+            if o.kind == "symset":
+                from . import symlist
+                it = symlist.items_view(I, it, o)
+                o = I.hobj(it)
             if o.kind == "symlist":
                 from . import symlist
                 return {"n": o.meta["len"], "elem": lambda i: symlist.getitem(I, it, o, i)}
